@@ -9,6 +9,7 @@ func init() {
 		Run: func(c *Ctx) {
 			ruleWalker(c)
 			ruleOneOutputPerElement(c)
+			ruleNoSort(c)
 			ruleSameDescriptor(c)
 		},
 	})
